@@ -26,8 +26,15 @@ def main():
                 chk.audit(mod.THEOREMS, [t for t in mod.TARGETS if '.Props.' in t])
                 if a.tier == 'thorough':
                     chk.leanchecker([t for t in mod.TARGETS if '.Props.' in t])
+        if a.pid != 'C20':
+            # every check drives the real lexers: one that stops advancing must end the run (C02 reports it as a violation,
+            # elsewhere it is an infrastructure failure), never stall it.  C20 digests class state and runs without the wrapper.
+            from tools.harness import common
+            common.install_lexer_guard()
         return mod.run(chk)
-    except Exception:
+    except BaseException as e:
+        if isinstance(e, (KeyboardInterrupt, SystemExit)):
+            raise
         traceback.print_exc()
         print('INFRASTRUCTURE-ERROR property=%s' % a.pid)
         return 2
